@@ -1343,6 +1343,11 @@ func (vc *VC) enterLoop(fr *Frame, li *loopInfo, in *State) *State {
 	for _, cl := range invs {
 		vc.assume(st.cond, vc.specBool(envH, cl.Expr))
 	}
+	// 3b. lemma instances over the loop-head state (loop N use lemma(args)): valid facts
+	for _, cl := range vc.loopClauses(li, "use") {
+		vc.assume(st.cond, vc.specBool(envH, cl.Expr))
+		vc.trusted["lemma instance "+cl.Raw.Text+" (proved separately as a lemma obligation)"] = true
+	}
 	// 4. variant
 	if ds := vc.loopClauses(li, "decreases"); len(ds) > 0 {
 		v := envH.eval(ds[0].Expr)
@@ -1396,6 +1401,12 @@ func (vc *VC) checkLoopBack(fr *Frame, li *loopInfo, src *ssa.BasicBlock, st *St
 		}
 		if whole {
 			continue
+		}
+		// objects and arrays allocated during the iteration are not part of the loop's frame
+		if strings.HasPrefix(name, "A!") && indexSortOf(srt) == sBV64 {
+			conds = append(conds, app("bvult", "((_ zero_extend 16) ((_ extract 63 16) "+key+"))", li.havocSt.alloc))
+		} else if strings.HasPrefix(name, "H!") && indexSortOf(srt) == sBV64 {
+			conds = append(conds, app("bvult", key, li.havocSt.alloc))
 		}
 		vc.oblige(st, fmt.Sprintf("loop-frame.%d", li.ordinal), name, imp(and(conds...), eq(sel(cur, key), sel(head, key))), src.Instrs[len(src.Instrs)-1].Pos(), nil)
 	}
